@@ -640,7 +640,7 @@ func runMinimise(file, out string) int {
 	withPolicies := func(w *Workload) *Replay {
 		// candidate workloads are tried under the recorded schedule first, then under serial orders
 		cands := []simrt.Policy{cur.Run.Policy}
-		for _, p := range permutations(len(w.Tasks)) {
+		for _, p := range permutations(len(w.Tasks), 5) {
 			cands = append(cands, simrt.Policy{Mode: "serial", SerialOrder: p})
 			if len(cands) > 4 {
 				break
